@@ -854,10 +854,12 @@ def unique_rules(model, R):
     i = [e for e in E.on('_items') if e.op in ('append', 'remove', 'insert', 'pop', 'extend', 'setitem', 'delitem', 'clear', 'assign')]
     rm = [e for e in s if e.op in ('remove', 'discard') and e.args and name_is(e.args[0], item)]
     ad = [e for e in s if e.op == 'add' and e.args and name_is(e.args[0], new)]
+    # the effects on _seen were extracted (recognised operations on the tracked container): their net effect is decided
+    simple = all(e.op in ('add', 'remove', 'discard') and len(e.args) == 1 for e in s) and 1 <= len(s) <= 3
     R.check(len(rm) == 1 and len(s) == 2, 'UNIQUE-INVARIANT', func, rm[0].node if rm else func.node, 'replace: old item leaves _seen',
-            f'self._seen.remove({item})', '; '.join(src(e.node) for e in s))
+            f'self._seen.remove({item})', '; '.join(src(e.node) for e in s), strict=True if simple else None)
     R.check(len(ad) == 1 and len(s) == 2, 'UNIQUE-INVARIANT', func, ad[0].node if ad else func.node, 'replace: new item enters _seen',
-            f'self._seen.add({new})', '; '.join(src(e.node) for e in s))
+            f'self._seen.add({new})', '; '.join(src(e.node) for e in s), strict=True if simple else None)
     st = [e for e in i if e.op == 'setitem']
     ok = False
     if len(st) == 1 and len(i) == 1:
@@ -941,6 +943,37 @@ def unique_rules(model, R):
         if name == 'rsub':
             R.check(src(ast.Attribute(value=ast.Name(id='self', ctx=ast.Load()), attr='_seen', ctx=ast.Load())) in notin,
                     'UNIQUE-INVARIANT', func, lc, 'rsub: items already present are dropped', 'x not in self._seen', src(lc))
+    # any further method that writes the two containers directly (e.g. a bulk __ior__ replacing the inherited one-by-one add)
+    known_writers = {'__init__', '_fromargs', 'copy', 'add', 'discard', 'replace', 'move', 'rsub'}
+    for mname, mfunc in cls.methods.items():
+        if mname in known_writers:
+            continue
+        ME = Effects(mfunc, FLD)
+        writes = [e for e in ME.records if (e.field == '_seen' and e.op in ('add', 'remove', 'discard', 'update', 'clear', 'pop', 'assign', 'ior', 'difference_update'))
+                  or (e.field == '_items' and e.op in ('append', 'remove', 'insert', 'pop', 'extend', 'setitem', 'delitem', 'clear', 'assign', 'iadd', 'sort', 'reverse'))]
+        if not writes:
+            continue
+        menv = Env(mfunc)
+        bulk = [e for e in writes if e.field == '_items' and e.op in ('extend', 'iadd')]
+        decided = False
+        for e in bulk:
+            arg = menv.expand(e.args[0]) if e.args else None
+            if isinstance(arg, (ast.ListComp, ast.GeneratorExp)) and len(arg.generators) == 1:
+                g = arg.generators[0]
+                conj = []
+                for c_ in g.ifs:
+                    conj += _flatten_and(c_)
+                only_membership = bool(conj) and all(
+                    isinstance(strip_not(c_)[0], ast.Compare) and isinstance(strip_not(c_)[0].ops[0], (ast.In, ast.NotIn)) for c_ in conj)
+                targets = {src(menv.expand(strip_not(c_)[0].comparators[0], alias_only=True)) for c_ in conj if isinstance(strip_not(c_)[0], ast.Compare)}
+                if only_membership and targets <= {'self._seen', 'self._items', 'self'}:
+                    R.bad('UNIQUE-INVARIANT', mfunc, e.node, f'{mname}: a batch appended to _items is free of repeats',
+                          'every item checked against the items already kept *and* the ones of the same batch (add() one by one, or the dedup idiom)',
+                          f'{src(arg)[:100]} filters only against the names already present',
+                          extra={'consequence': 'a new name that occurs twice in the argument is stored twice: duplicate rows/columns'})
+                    decided = True
+        if not decided:
+            R.unknown('UNIQUE-INVARIANT', mfunc, writes[0].node, f'{mname}: writes the containers directly', 'a writer the rule table does not know')
     func = cls.methods.get('__contains__')
     if func is not None:
         rets = [n for n in walk(func.body) if isinstance(n, ast.Return)]
